@@ -782,12 +782,24 @@ def normalise_new(tree: ast.Module, known: Set[str], protected: Set[str], known_
                 continue
             if any(isinstance(n, (ast.Yield, ast.YieldFrom, ast.Await)) for n in _own_walk(fd)):
                 continue
+            if any(isinstance(n, ast.Attribute) and isinstance(n.value, ast.Name) and n.value.id == "hashlib" for n in _own_walk(fd)):
+                continue  # a digest primitive: the rules know it by its role (roles.is_digest_call), under any name
             helpers[q] = (fd, cls)
         if not helpers:
             break
         sites: Dict[str, List[Tuple[FuncDef, ast.stmt, ast.Call]]] = {q: [] for q in helpers}
         seen: Set[int] = set()
-        for caller, ccls in scopes:
+        # a closure calls the helpers of its module like the function that holds it does
+        callers: List[Tuple[FuncDef, Optional[ast.ClassDef]]] = list(scopes)
+        for fd0, cls0 in scopes:
+            work = [fd0]
+            while work:
+                cur = work.pop()
+                for sub in _own_walk(cur):
+                    if isinstance(sub, ast.FunctionDef):
+                        callers.append((sub, None))
+                        work.append(sub)
+        for caller, ccls in callers:
             for n in _own_walk(caller, into_lambdas=False):
                 if not isinstance(n, ast.stmt):
                     continue
